@@ -14,6 +14,7 @@ pub mod c09;
 pub mod c10;
 #[cfg(not(feature = "xen"))]
 pub mod c11;
+pub mod c12;
 pub mod c13;
 pub mod c14;
 pub mod c17;
@@ -37,6 +38,7 @@ pub fn dispatch(prop: &str, tier: Tier, replay: Option<String>) -> i32 {
         "C10" => c10::run(tier, replay),
         #[cfg(not(feature = "xen"))]
         "C11" => c11::run(tier, replay),
+        "C12" => c12::run(tier, replay),
         "C13" => c13::run(tier, replay),
         "C14" => c14::run(tier, replay),
         "C17" => c17::run(tier, replay),
